@@ -970,7 +970,7 @@ Section AWOps2.
     - (* CYield *)
       destruct k as [| |c].
       + apply Q, aw_refl.
-      + destruct inc; [apply Q, aw_refl|]. cbn [fst blocked].
+      + destruct inc; [apply Q, aw_refl|]. destruct (ckif_spins _ _ _); [|apply Q, aw_refl]. cbn [fst blocked].
         apply (aw_trans t XE X a (bare_yield s u)); [|apply aw_set_running; discriminate].
         apply (aw_trans t XE X a s); [exact K0|apply aw_bare_yield].
       + pose proof (aw_exit t XE X s c u inc Hu) as K. destruct (scope_exit s c u inc) as [s1 x]. cbn [fst] in K.
